@@ -188,7 +188,7 @@ CLAIMED = {
 # clauses added after the independently seeded changes of DESIGN.md section 8 (appended to the level text)
 EXTRA = {
     "C01": "Also decides (added later): the append declarations declare the repeat of the item appended (R01f), position lookup is bisect_left with None beyond the end (R01g), "
-           "bulk setters advance by the width of what they set (R01h), and C02's cache rules R02a-c, which are necessary conditions here too. Round 3: R08f (rows read through Table.traverse are complete, stamped with their position and one fresh copy each). Round 4: R19a (axis typing, incl. the components of Table.size) is evaluated here too. Round 5: the reset of the wrapper indexes, per key or as a whole attribute, gives every index its own new dict (R02f shared).",
+           "bulk setters advance by the width of what they set (R01h), and C02's cache rules R02a-c, which are necessary conditions here too. Round 3: R08f (rows read through Table.traverse are complete, stamped with their position and one fresh copy each). Round 4: R19a (axis typing, incl. the components of Table.size) is evaluated here too. Round 5: the reset of the wrapper indexes, per key or as a whole attribute, gives every index its own new dict (R02f shared); R02h is evaluated here too.",
     "C03": "Also decides that each save wrapper cleans (backup/unlink) exactly the location it then writes and that the folder writer always starts from a cleaned location (R03f). Round 3: no file-like save target is repositioned without being truncated (R03g). Round 4: class lookup, parsed-part cache and container call see the same definition of the part path (R03h). Round 5: the serialiser is handed the part's tree, not its root element (R03e).",
     "C04": "Also decides the reverse pairing (a manifest entry only for a part written on every path; dedupe never drops a distinct path) and that bulk loaders never overwrite "
            "a part already in memory, deleted ones included (R10f, with alias resolution). Round 4: R03b (every parsed part, the manifest included, is flushed on every path to container.save) is evaluated here too. Round 5: every path that marks a part deleted also removes its manifest entry (R04b reverse pairing).",
@@ -200,9 +200,9 @@ EXTRA = {
     "C09": "Also decides that three-way cuts are ordered: the end of a cut is its start plus a provably non-negative length, or both are one regex match span (R09d, sign analysis). Round 4: the element handed to _insert() is newly built, never a node already in the tree (R09e). Round 5: the occurrence counter of the regex-driven inserters accumulates, and start and end mark use one position (R09f).",
     "C10": "Also decides that bulk loaders of the part table keep entries already in memory (R10f). Round 3: clone builders hand the clone only copies on every path; Element.clone's holder is local (R10g). Round 4: setters with a clone flag attach a copy whenever the flag may be true (R10h).",
     "C11": "Also decides that indented bytes are stored in the container only for parts whose parsed tree stays in the document's cache (R11g). Round 3: nothing is parsed with a content-dropping parser (R11h). Round 4: the flat-XML writer gives every replaced image its own new node (R11i); R11h also covers module-level parsers. Round 5: R03a (what is written is what is in memory) is evaluated here too.",
-    "C02": "Round 3: every reset of a wrapper index assigns its own new empty dict (R02f). Round 4: a wrapper is cached under an item index computed after the last renumbering (R02g). Round 5: R02f also reads whole-attribute assignments of _indexes; in the table abstract interpreter the deletion of an unclassified child dirties every map and index.",
+    "C02": "Round 3: every reset of a wrapper index assigns its own new empty dict (R02f). Round 4: a wrapper is cached under an item index computed after the last renumbering (R02g). Round 5: R02f also reads whole-attribute assignments of _indexes; no answer of a table class is memoised outside the governed caches (R02h: no cache decorator, no store on self but _indexes[…] in a read-only method; expected count 0, fixture on every run); in the table abstract interpreter the deletion of an unclassified child dirties every map and index.",
     "C12": "Also decides that no constructor store that may rebuild the element (self.clear() reachable) follows another store on self (R12j), and that no traversal memoises "
-           "registry lookups (R12e). Round 3: R10c/R10g (clone is one of the access paths). Round 4: element classes and their mixins query relative to self (R12k); R11h is evaluated here too. Round 5: the six generic attribute accessors of Element carry the value verbatim (R12l).",
+           "registry lookups (R12e). Round 3: R10c/R10g (clone is one of the access paths). Round 4: element classes and their mixins query relative to self (R12k); R11h is evaluated here too. Round 5: the six generic attribute accessors of Element carry the value verbatim (R12l); no hand-written property getter/setter applies a lossy string call, two documented exceptions frozen by symbol (R12m).",
     "C13": "Also decides that merge_styles_from looks for the style to replace in the whole destination part — neither one container nor the whole document (R13c). Round 5: insert_style returns the name read from the style after the append (R13f).",
     "C14": "Also decides that the string-literal helper denotes exactly its argument (R14c) and that neither an identifier nor a finished query passes through a lossy string "
            "transformation on its way to an XPath sink (R14d; expected count 0, fixture on every run). Round 3: no identifier parameter is compared with a bool-decoding attribute property (R14e). Round 4: R19b (address writer and reader agree on quoting the table name) is evaluated here too. Round 5: R14d also knows function-form rewrites (normalize, re.sub …) and checks the query builders themselves; R19f (a name is matched whole, never as a substring) is evaluated here too.",
